@@ -2,8 +2,17 @@
 package main
 
 import (
+	"os"
+
 	"verif/checks"
 	"verif/mc"
 )
 
-func main() { mc.Main(checks.All()) }
+func main() {
+	for _, a := range os.Args[1:] {
+		if a == "-racepass" {
+			os.Exit(checks.RacePass())
+		}
+	}
+	mc.Main(checks.All())
+}
